@@ -785,6 +785,238 @@ def run_loss_flags(ctx, model, scico):
             ctx.disagree("loss.flags.shape", case, list(np.asarray(pr[1]).shape), [n])
 
 
+def run_sql2_weights_shape(ctx, model, scico):
+    """SquaredL2Loss with a weight diagonal whose length is n (used as is), 1 (broadcast) or something else (TypeError from
+    broadcasting, at __call__ / prox time): model `wNormalize`"""
+    import scico.numpy as snp
+    from scico import linop, loss
+
+    rng = ctx.rng
+    for _ in range(ctx.n(24, 150)):
+        cplx = bool(rng.random() < 0.3)
+        n = int(rng.integers(2, 6))
+        mode = ["same", "one", "other"][int(rng.integers(3))]
+        m = n if mode == "same" else (1 if mode == "one" else int(rng.choice([k_ for k_ in range(2, 8) if k_ != n])))
+        w = rng.integers(0, 5, size=m).astype(np.float64) / 2
+        y, x = G.dy(rng, (n,), cplx), G.dy(rng, (n,), cplx)
+        sc, lam = G.pos_dyadic(rng), G.pos_dyadic(rng)
+        L = loss.SquaredL2Loss(y=snp.array(y), scale=sc, W=linop.Diagonal(snp.array(w), input_dtype=np.float64))
+        ie = _impl(lambda: float(L(snp.array(x))))
+        ip = _impl(lambda: G.il(np.asarray(L.prox(snp.array(x), lam)), cplx))
+        try:
+            r = model.call("sql2w", cplx=cplx, y=fs2b(G.il(y, cplx)), x=fs2b(G.il(x, cplx)), w=fs2b(w), scale=f2b(sc), lam=f2b(lam))
+            me = _model_field(r, "eval")
+            me = me if me[0] == "err" else ("ok", b2f(me[1]))
+            mp = _model_field(r, "prox")
+            mp = mp if mp[0] == "err" else ("ok", G.arg_json_flat(mp[1]))
+        except ModelErr as e:
+            me = mp = ("err", e.kind)
+        case = {"sql2w": mode, "n": n, "m": m, "cplx": cplx, "w": w.tolist(), "x": fs2b(G.il(x, cplx)), "y": fs2b(G.il(y, cplx))}
+        ctx.case({k_: case[k_] for k_ in ("sql2w", "n", "m", "cplx")}, ("sql2w", mode, cplx, n, m))
+        ctx.count(f"sql2w:{mode}:" + (ie[0] if ie[0] == "ok" else "err-" + ie[1]))
+
+        def oracle(_c, ie=ie, mode=mode, w=w, y=y, x=x, sc=sc):
+            if mode != "other" and ie[0] == "ok":
+                want = float(sc * np.sum(w * np.abs(y - x) ** 2))
+                if not _same_num(ie[1], want, 64):
+                    return {"what": "SquaredL2Loss value differs from scale*sum(w |y-x|^2) with the weights broadcast", "impl": ie[1], "formula": want}
+            if mode == "other" and ie[0] == "ok":
+                return {"what": "SquaredL2Loss accepted a weight diagonal that fits neither the data nor a scalar", "len(w)": len(w), "n": len(y)}
+            return None
+
+        if ie[0] != me[0] or (ie[0] == "err" and ie[1] != me[1]) or (ie[0] == "ok" and not _same_num(ie[1], me[1], 64)):
+            ctx.disagree("sql2w.eval", case, list(ie), list(me), oracle=oracle)
+        if ip[0] != mp[0] or (ip[0] == "err" and ip[1] != mp[1]) or (ip[0] == "ok" and not _same_arr(ip[1], mp[1])):
+            ctx.disagree("sql2w.prox", case, [ip[0], ip[1] if ip[0] == "err" else np.asarray(ip[1]).tolist()],
+                         [mp[0], mp[1] if mp[0] == "err" else np.asarray(mp[1]).tolist()], oracle=oracle)
+
+
+def run_scale_kinds(ctx, model, scico):
+    """ScaledFunctional.has_prox for every kind of scale object (positive / non-positive real, complex dtype incl. 2+0j, real
+    and complex tracers inside jax.jit) x wrapped flag; value of (c*f)(x) for complex c is c*f(x)"""
+    import jax
+    import scico.functional as F
+    import scico.numpy as snp
+
+    rng = ctx.rng
+    kinds = {"pos": [0.5, 2.0, 3], "nonpos": [0.0, -1.0, -2], "complex": [1j, -1j, 2 + 0j, np.complex128(0.5 + 0.5j)],
+             "traced": [1.5, -1.5], "tracedcomplex": [1.5 + 0j, 1j]}
+    for kind, vals in kinds.items():
+        for c in vals:
+            for inner in (True, False):
+                f = F.L1Norm() if inner else (F.L1Norm() + F.L2Norm())
+                if kind.startswith("traced"):
+                    seen = []
+
+                    def probe(cc, f=f, seen=seen):
+                        g = F.ScaledFunctional(f, cc)
+                        seen.append(bool(g.has_prox))
+                        return g(snp.ones((2,), dtype=np.float64))
+
+                    _ = jax.jit(probe)(c)
+                    flag = seen[0]
+                else:
+                    flag = bool(F.ScaledFunctional(f, c).has_prox)
+                    x = snp.array(G.dy(rng, (3,), False))
+                    val = complex(F.ScaledFunctional(f, c)(x))
+                    want = complex(c) * float(f(x))
+                    if not (common.close(val.real, want.real, k=8, rtol=TOL) and common.close(val.imag, want.imag, k=8, rtol=TOL)):
+                        ctx.disagree("scalekind.eval", {"kind": kind, "c": repr(c)}, repr(val), repr(want),
+                                     oracle=lambda _c, val=val, want=want: {"what": "(c*f)(x) differs from c*f(x)", "impl": repr(val), "formula": repr(want)})
+                m = bool(model.call("scalekind", kind=kind, inner=inner))
+                ctx.case({"scalekind": kind, "c": repr(c), "inner": inner}, ("scalekind", kind, repr(c), inner))
+                ctx.count(f"scalekind:{kind}:has_prox={flag}")
+                if flag != m:
+                    ctx.disagree("scalekind.flag", {"kind": kind, "c": repr(c), "inner": inner}, flag, m,
+                                 oracle=lambda _c, flag=flag, kind=kind, c=c, inner=inner: (
+                                     {"what": "ScaledFunctional advertises a prox for a scale that is not a positive real", "scale": repr(c), "kind": kind}
+                                     if flag and kind in ("nonpos", "complex", "tracedcomplex") else
+                                     ({"what": "ScaledFunctional advertises a prox although the wrapped functional has none", "scale": repr(c)} if flag and not inner else None)))
+
+
+def run_sep_plain(ctx, model, scico):
+    """SeparableFunctional applied to a PLAIN array (documented input: BlockArray): `len(x.shape)` is ndim, so the call is
+    accepted iff ndim == k and then iterates over the leading axis, stopping at the shorter of (k functionals, shape[0]
+    slices); otherwise ValueError.  Model: evalSepPlain / proxSepPlain."""
+    import scico.functional as F
+    import scico.numpy as snp
+
+    rng = ctx.rng
+    for _ in range(ctx.n(40, 300)):
+        cplx = bool(rng.random() < 0.3)
+        k = int(rng.integers(1, 4))
+        ndim = k if rng.random() < 0.8 else int(rng.integers(1, 4))
+        shape = tuple(int(rng.integers(1, 4)) for _ in range(ndim))
+        tg = G.TreeGen(rng, cplx, allow_lossdefect=False, leaf_kinds=["l1", "sql2", "zero", "hubers", "l2"])
+        slice_shape = shape[1:] if len(shape) > 1 else (1,)
+        fs = []
+        for _i in range(k):
+            t = tg.leaf(G.BOTH_FLAGS)
+            if rng.random() < 0.4:
+                t = {"k": "scaled", "c": f2b(G.pos_dyadic(rng)), "f": t}
+            fs.append(t)
+        case = {"cplx": cplx, "leaves": tg.leaves, "ops": [], "fs": fs, "shape": list(shape)}
+        a = G.dy(rng, shape, cplx)
+        lam = G.pos_dyadic(rng)
+        parts = [G.build(scico, dict(case, t=t, shape=list(slice_shape)))[0] for t in fs]
+        obj = F.SeparableFunctional(parts)
+        xj = snp.array(a)
+        ie = _impl(lambda: float(obj(xj)))
+        ip = _impl(lambda: [G.il(np.asarray(b), cplx) for b in obj.prox(xj, lam)])
+        r = model.call("sepplain", cplx=cplx, leaves=case["leaves"], ops=[], fs=fs, shape=list(shape), x=fs2b(G.il(a, cplx)), lam=f2b(lam))
+        me = _model_field(r, "eval")
+        me = me if me[0] == "err" else ("ok", b2f(me[1]))
+        mp = _model_field(r, "prox")
+        case["x"] = fs2b(G.il(a, cplx))
+        ctx.case({"sepplain": [G.tree_sig(t) for t in fs], "shape": list(shape), "cplx": cplx}, ("sepplain", k, shape, cplx))
+        ctx.count(f"sepplain:k={k}:ndim={ndim}:leading={shape[0]}:" + (ie[0] if ie[0] == "ok" else "err-" + ie[1]))
+
+        def oracle(_c, ie=ie, k=k, shape=shape, a=a, fs=fs, case=case):
+            # what the code computes must at least be the documented separable sum when the array has exactly k slices
+            if ie[0] == "ok" and len(shape) == k and shape[0] == k:
+                want = sum(G.np_eval(dict(case, shape=list(a[i].shape) or [1]), [np.atleast_1d(a[i])], fs[i], tuple(a[i].shape) or (1,)) for i in range(k))
+                if not _same_num(ie[1], want, 64):
+                    return {"what": "SeparableFunctional on a (k, ...) array differs from the sum of f_i(x[i])", "impl": ie[1], "sum": want}
+            if ie[0] == "ok" and len(shape) != k:
+                return {"what": "SeparableFunctional accepted a plain array whose ndim differs from the number of functionals", "ndim": len(shape), "k": k}
+            return None
+
+        if ie[0] != me[0] or (ie[0] == "err" and ie[1] != me[1]) or (ie[0] == "ok" and not _same_num(ie[1], me[1], 64)):
+            ctx.disagree("sepplain.eval", case, list(ie), list(me), oracle=oracle)
+        if mp is not None:
+            if mp[0] == "err":
+                bad = ip[0] != "err" or ip[1] != mp[1]
+            else:
+                mblocks = [np.asarray(b2fs(b)) for b in mp[1]["b"]]
+                bad = ip[0] != "ok" or len(ip[1]) != len(mblocks) or any(not _same_arr(p_, q_) for p_, q_ in zip(ip[1], mblocks))
+            if bad:
+                ctx.disagree("sepplain.prox", case, [ip[0], ip[1] if ip[0] == "err" else [np.asarray(p_).tolist() for p_ in ip[1]]],
+                             [mp[0], mp[1] if mp[0] == "err" else [b2fs(b) for b in mp[1]["b"]]], oracle=oracle)
+
+
+def run_kwargs(ctx, model, scico):
+    """keyword arguments of prox / conj_prox are forwarded verbatim through every nesting (model `kwPlan`): every base
+    functional the model lists receives exactly the caller's keywords, in the model's order, and a CG-branch SquaredL2Loss
+    node starts CG from `x0` (zeros when absent or None).  Recorders are put on the leaf objects and on scico.loss.cg."""
+    import scico.loss as SL
+    import scico.numpy as snp
+
+    rng = ctx.rng
+    done = 0
+    tries = 0
+    while done < ctx.n(40, 300) and tries < 3000:
+        tries += 1
+        case = gen_tree_case(ctx, "valid")
+        obj, info = G.build(scico, case)
+        if obj is TypeError or not bool(obj.has_prox) or info.patterns:
+            continue
+        cplx = case["cplx"]
+        shape = G.norm_shape(case["shape"])
+        r = model.call("tree", cplx=cplx, leaves=case["leaves"], ops=case["ops"], t=case["t"], x=case["x"], v=case["v"], lam=case["lam"])
+        want = [("leaf", c["leaf"]) if "leaf" in c else ("sql2op", c["sql2op"]) for c in r["kwplan"]]
+        v = G.arg_to_scico(case["v"], shape, cplx)
+        lam = b2f(case["lam"])
+        plain = not isinstance(shape, list)
+        marker = object()
+        kw = {"foo": marker}
+        mode = ["none", "x0", "x0=None"][int(rng.integers(3))] if plain else "none"
+        x0 = None
+        if mode == "x0":
+            x0 = G.arg_to_scico(G.random_arg_json(rng, shape, cplx), shape, cplx)
+            kw["x0"] = x0
+        elif mode == "x0=None":
+            kw["x0"] = None
+        got = []
+        ids = {id(o): i for i, o in info.leaf_objs.items()}
+        for o in info.leaf_objs.values():
+            orig = o.prox
+
+            def rec(v_, lam_=1.0, _orig=orig, _o=o, **kws):
+                got.append((("leaf", ids[id(_o)]), kws))
+                return _orig(v_, lam_, **kws)
+
+            o.prox = rec
+        real_cg = SL.cg
+
+        def cg_rec(A_, b_, x0_=None, **kws):
+            got.append((("sql2op", None), {"x0": x0_}))
+            return real_cg(A_, b_, x0_, **kws)
+
+        SL.cg = cg_rec
+        try:
+            for which in ("prox", "conj_prox"):
+                del got[:]
+                res = _impl(lambda: getattr(obj, which)(v, lam, **kw))
+                if res[0] != "ok":
+                    continue
+                seq = [g[0][0] if g[0][0] == "sql2op" else g[0] for g in got]
+                wseq = [w[0] if w[0] == "sql2op" else w for w in want]
+                bad = None
+                if seq != wseq:
+                    bad = {"what": f"{which}: receivers of the keyword arguments differ from the model", "got": seq, "model": wseq}
+                else:
+                    for (who, _), kws in got:
+                        if who == "leaf" and not (kws.get("foo") is marker and (("x0" in kws) == ("x0" in kw)) and kws.get("x0") is kw.get("x0")):
+                            bad = {"what": f"{which}: a base functional did not receive the caller's keyword arguments verbatim",
+                                   "received keys": sorted(kws), "given keys": sorted(kw)}
+                        if who == "sql2op":
+                            z = np.asarray(kws["x0"])
+                            # conj_prox calls prox(v / lam, ...): zeros either way; a given x0 is passed on unchanged
+                            # (inside a separable functional the node sees one block: without x0 only "all zeros" is checked)
+                            exp = np.asarray(x0) if x0 is not None else np.zeros_like(z)
+                            if z.shape != exp.shape or not np.array_equal(z, exp):
+                                bad = {"what": f"{which}: SquaredL2Loss started CG from something else than x0 / zeros", "x0 used": z.tolist(),
+                                       "expected": exp.tolist()}
+                if bad is not None:
+                    ctx.disagree("tree.kwargs", dict(case, kw_mode=mode), bad.get("got", bad["what"]), bad.get("model", "verbatim"),
+                                 oracle=lambda _c, bad=bad: bad)
+        finally:
+            SL.cg = real_cg
+        ctx.case({"kwargs": G.tree_sig(case["t"]), "cplx": cplx, "mode": mode}, ("kwargs", G.tree_sig(case["t"]), mode) if want else None)
+        ctx.count(f"kwargs:{mode}:{len(want)} receivers")
+        done += 1
+
+
 def run_unit_factor(ctx, scico):
     """`1 * L`, `L * 1.0`, `L / 1`, ... are independent copies: rescaling the product in place leaves L alone (5 loss classes x
     6 ways of writing the unit factor; a history on the same objects)"""
@@ -913,6 +1145,10 @@ def correspond(ctx, model):
         case["v"] = G.random_arg_json(ctx.rng, shape, case["cplx"])
         case["lam"] = f2b(G.pos_dyadic(ctx.rng))
         run_tree_case(ctx, model, scico, case, oracle, "rescale-chain")
+    run_sql2_weights_shape(ctx, model, scico)
+    run_scale_kinds(ctx, model, scico)
+    run_sep_plain(ctx, model, scico)
+    run_kwargs(ctx, model, scico)
     run_unit_factor(ctx, scico)
     run_sql2_ctor(ctx, scico)
     run_loss_flags(ctx, model, scico)
